@@ -12,7 +12,8 @@
 #include "supplemental/http/http_api.h"
 
 static size_t      st_calls, ver_calls, meth_calls, uri_calls, add_calls, canon_calls;
-static unsigned    st_code, conn_code;
+static unsigned    st_code;
+static int         conn_code; /* nng_http_status is a signed enum: any int may be in the structure */
 static const char *st_reason, *ver_arg, *meth_arg, *uri_arg, *uri_query, *add_key, *add_val;
 static int         ver_rv, add_rv, uri_rv, canon_rv;
 static char        ver_seen[32], key_seen[64], val_seen[64], meth_seen[64], uri_seen[64], reason_seen[64];
@@ -72,7 +73,7 @@ nni_http_set_status(nng_http *c, nng_http_status s, const char *r)
 	(void) c;
 	st_calls++;
 	st_code = (uint16_t) s, st_reason = r;
-	conn_code = (uint16_t) s;
+	conn_code = (int) s;
 	keep(reason_seen, sizeof(reason_seen), r);
 }
 nng_http_status nni_http_get_status(nng_http *c) { (void) c; return ((nng_http_status) conn_code); }
@@ -203,7 +204,7 @@ run_hdr(int arv)
 }
 
 static void
-run_req(unsigned code0, int crv, int urv)
+run_req(int code0, int crv, int urv)
 {
 	size_t s1 = first_at(0, ' '), s2 = s1 < n0 ? first_at(s1 + 1, ' ') : n0;
 	int    well = 0 < s1 && s1 + 1 < s2 && s2 < n0;
@@ -215,7 +216,7 @@ run_req(unsigned code0, int crv, int urv)
 	uri_rv    = urv;
 	int rv    = http_req_parse_line(NULL, line);
 	show("http_req_parse_line(", orig, n0);
-	printf(") [status before %u, canonifier answers %d, target store answers %d] -> %d; status store %zu (code %u), method store %zu, target store %zu, version store %zu\n",
+	printf(") [status before %d, canonifier answers %d, target store answers %d] -> %d; status store %zu (code %u), method store %zu, target store %zu, version store %zu\n",
 	    code0, crv, urv, rv, st_calls, st_code, meth_calls, uri_calls, ver_calls);
 #define NOSTORE (meth_calls == 0 && uri_calls == 0)
 #define STATUS(c) (st_calls == 1 && st_code == (c) && st_reason == NULL)
@@ -275,7 +276,14 @@ main(int argc, char **argv)
 		run_hdr(0);
 		run_hdr(NNG_ENOMEM);
 	} else if (IS("http_req_parse_line")) {
-		unsigned code0 = (unsigned) vp_u64("vp_in_code", 0) & 0xffff;
+		int code0 = (int) (int64_t) vp_u64("vp_in_code", 0);
+		if (code0 < 0) {
+			/* CBMC gives the enum nng_http_status a signed type, gcc an unsigned one: a "negative"
+			 * status is below 400 for the one and above for the other.  No stored status has the
+			 * top bit set; take the representative of the class the counterexample is in (< 400). */
+			printf("note: status before = %d in the counterexample (signed enum): replayed as 0\n", code0);
+			code0 = 0;
+		}
 		run_req(code0, 0, 0);
 		run_req(code0, NNG_EINVAL, 0);
 		run_req(code0, 0, NNG_ENOMEM);
